@@ -12,6 +12,7 @@ rate matrix assembled independently from the jump list:
   (d) far field : 3D only: g(i,j,x) -> -V sqrt(rho_i rho_j) / (4 pi sqrt(det D) |x|_D) along every lattice direction up
                   to a quarter of the mesh period (the weakest oracle of the set; catches wrong prefactors / pole terms)
   (e) scaling   : g(c * rates) = g / c for c in {2, 1e-3}; D scales with c
+  (f) history   : an instance that has seen other rates before gives exactly what a fresh instance gives
 """
 import itertools
 import numpy as np
@@ -27,8 +28,9 @@ RULE = ('node = (crystal, cutoff, base, <=1 deviation); per node every endpoint 
 LEVEL_TEXT = 'All endpoint pairs / group operations / directions of every listed node; the residual bound is complemented by a refinement oracle so that the accuracy statement is not circular.'
 LEVEL_NOTE = 'The rate matrix used in the residual is assembled from the jump list in the site basis (mc/refmodels/pair.Net), independent of the Fourier/Taylor machinery.'
 
-QUICK = [('SC', 0), ('FCC', 0), ('BCC', 0), ('HCP', 0), ('OMEGA', 0), ('ROMEGA', 0), ('SQUARE', 0), ('HONEY', 0), ('KAGOME', 0), ('RECTM', 0), ('B2', 0)]
-THOROUGH = QUICK + [('PYROPE', 0), ('TET', 1), ('ORTH', 2), ('DIAMOND', 0), ('L12', 0), ('NBO', 0), ('TRIA', 0), ('OBLIQUE', 1), ('CRECT', 1), ('HEXP', 1), ('RHOM', 1),
+QUICK = [('SC', 0), ('FCC', 0), ('BCC', 0), ('HCP', 0), ('OMEGA', 0), ('ROMEGA', 0), ('SQUARE', 0), ('HONEY', 0), ('KAGOME', 0), ('RECTM', 0), ('B2', 0),
+         ('OBLIQUE', 1), ('RHOM', 1), ('MONO', 2)]     # the last three: principal axes of D not along the Cartesian axes
+THOROUGH = QUICK + [('PYROPE', 0), ('TET', 1), ('ORTH', 2), ('DIAMOND', 0), ('L12', 0), ('NBO', 0), ('TRIA', 0), ('CRECT', 1), ('HEXP', 1), ('TRIC', 1),
                     ('FCC', 1), ('HONEY', 1), ('WURTZ2', 0), ('RUMPLED2', 0)]
 RBOUND = {'T': 1e-5, 'G1': 1e-5, 'G2': 1e-2}     # observed <= 4e-6 (T, G1) and <= 4e-3 (G2, oblique 2D) with Nmax = 4
 
@@ -153,6 +155,18 @@ def evaluate(case):
             # 5%: the leading correction is O(1/|x|) when site biases exist (observed <= 1.2% at the quarter period)
             if worst_far > 0.05 + tol:
                 viols.append({'oracle': 'far-field', 'key': key + ';direction={}'.format(k), 'detail': {'|ratio-1| at n={}'.format(nmax): worst_far}})
+    # (f) independence of the calculator's history: the same instance after SetRates on other data must give what a
+    #     fresh instance gives (bitwise: same arithmetic)
+    other = inter.base_data(ent, 'G2' if base != 'G2' else 'T')
+    g3 = GFcalc.GFCrystalcalc(crys, chem, sl, jn, 4)
+    g3.SetRates(other['pre'], other['betaene'], other['preT'], other['betaeneT'])
+    g3.SetRates(d['pre'], d['betaene'], d['preT'], d['betaeneT'])
+    worst = 0.
+    for (u, sj, sx, isdiag, terms) in rows[:max(30, len(rows) // 10)]:
+        worst = max(worst, abs(g3(sj, u, -sx) - gf(sj, u, -sx)))
+        ntr += 1
+    if worst > 1e-12 * gscale or not np.array_equal(g3.Diffusivity(), gf.Diffusivity()):
+        viols.append({'oracle': 'history-dependence', 'key': key, 'detail': {'max |g(reused) - g(fresh)| / scale': worst / gscale}})
     # (e) scaling
     for c in (2., 1e-3):
         g2 = GFcalc.GFCrystalcalc(crys, chem, sl, jn, 4)
